@@ -7,4 +7,4 @@ From Coq Require Import ExtrOcamlBasic.
 From RbxVerif Require Db DbOwner Database.
 Extraction Language OCaml.
 Set Extraction KeepSingleton.
-Extraction "dbmodel.ml" Db.find_desc_bin Db.find_desc_xml Db.find_default Db.get_class DbOwner.default_obs Database.database.
+Extraction "dbmodel.ml" Db.find_desc_bin Db.find_desc_xml Db.find_default Db.get_class DbOwner.default_obs DbOwner.chain_obs Database.database.
